@@ -111,3 +111,19 @@ PROPS["C11"] = dict(
          "class (last overlapping chunk, final needle.len() bytes) with partial pair hits planted before it; non-trivial as C12",
     assumptions=SUB_ASSUME, trusted=SUB_TRUSTED,
 )
+
+PROPS["C05"] = dict(
+    id="C05",
+    coq_files=MEM_PROOF_FILES + ["Mem/IterProofs.v", "SpecProofs.v", "Sub/IsEqualProofs.v", "Sub/RabinKarpProofs.v", "Sub/ShiftOrProofs.v",
+                                 "Sub/PackedPairProofs.v", "Sub/PortablePrefilterProofs.v", "Sub/TwoWayPreProofs.v", "Props/C05.v"],
+    gen=gens.gen_c05, oracle=gens.oracle_c05, nontrivial=gens.nontrivial_c05,
+    shrink_fields=["h"], builds=["debug", "release", "plain-release"],
+    rule="the case families of C01/C02/C06/C07/C11/C12/C18 and Two-Way re-placed flush against PROT_NONE pages (left: under-reads fault, right: "
+         "over-reads fault), every load checked against the registered slices and for alignment by the hook, plus foreign needles (argument needle "
+         "different from / longer than / shorter than the construction needle, empty, longer than the haystack) for Rabin-Karp, packed-pair find "
+         "and Two-Way, plus a haystack mapped at a numerically low address with an argument needle longer than its end address; a hook-free "
+         "release build runs the same cases against the guard pages; non-trivial = operand of at least 4 bytes",
+    assumptions=SUB_ASSUME + ["an intrinsic reads exactly the bytes the model says (width at the given pointer)",
+                              "pointer provenance beyond 'stays inside the slice' is not modelled"],
+    trusted=SUB_TRUSTED,
+)
